@@ -79,7 +79,7 @@ def run_cases(ctx, cases, shard=150, nontrivial=None):
             continue
         nbad += 1
         e2, o2, a2, ia, ib = enc, op, args, a, b
-        if op in (30, 31, 32):
+        if op in (30, 31, 32) and nbad <= 4:      # drill down to the date for the first few mismatches only
             sing = singles_of(enc, op, args)
             fs = [list(e) + [o] + list(x) for e, o, x in sing]
             sa = run_harness("cal", [calgen.line(c) for c in fs])
@@ -88,6 +88,8 @@ def run_cases(ctx, cases, shard=150, nontrivial=None):
                 if p != q:
                     e2, o2, a2, ia, ib = e, o, x, p, q
                     break
+        if nbad > 25:
+            continue
         ctx.violation(
             "the implementation disagrees with the proved model on %s: implementation %s, model %s "
             "(0 v = Ok v as day number, 1 = Err, 2 = abort)" % (describe(e2, o2, a2), fmt_out(ia), fmt_out(ib)),
